@@ -319,6 +319,7 @@ func ruleTopK(r *Run, rule string, k *vecKind) {
 	mk, ok := out.(*ssa.MakeSlice)
 	var appendFill *ssa.Call // the other form: out = append(out, {…}) for every element of L[:K]
 	var kcall *ssa.Call
+	directPrefix := false
 	if !ok {
 		// out := make([]VectorResult, 0, K); for _, r := range L[:K] { out = append(out, VectorResult{Node: r.elem, Score: r.dist}) }
 		if ph, isPhi := out.(*ssa.Phi); isPhi && len(ph.Edges) == 2 {
@@ -349,8 +350,23 @@ func ruleTopK(r *Run, rule string, k *vecKind) {
 			}
 		}
 		if appendFill == nil {
-			r.Und(rule, k.Name+":make", site, "returned slice is not a make([]VectorResult, K)")
-			return
+			// third form: the scan collects the results in their final type and the sorted list's prefix is returned as it is —
+			// return L[:sanitizeK(k, len(L))] with L's elements {Node: scanned element, Score: its distance}
+			if sl, isSl := out.(*ssa.Slice); isSl && sl.Low == nil && cellOf(sl.X) == cell && sinks[0].ElemF == "Node" && sinks[0].DistF == "Score" &&
+				strings.HasSuffix(tstr(sl.Type(), nil), "VectorResult") {
+				r.Ok(rule, k.Name+":fill", site, "the sorted list already holds {Node: scanned element, Score: its distance}; its prefix is returned as it is")
+				if sortCall != nil {
+					r.Check(domInstr(sortCall, sl), rule, k.Name+":fill:after-sort", site, "the prefix is taken after the sort", "the prefix is taken before the result slice is sorted")
+				}
+				kcall, _ = sl.High.(*ssa.Call)
+				directPrefix = true
+			} else {
+				r.Und(rule, k.Name+":make", site, "returned slice is not a make([]VectorResult, K)")
+				return
+			}
+		}
+		if directPrefix {
+			goto bound
 		}
 		// the appended element is read from S = L[:K] at the range index of a loop over S, on every iteration
 		elems, okE := appendedElems(appendFill)
@@ -415,6 +431,7 @@ func ruleTopK(r *Run, rule string, k *vecKind) {
 	} else {
 		kcall, _ = mk.Len.(*ssa.Call)
 	}
+bound:
 	if kcall == nil || staticCallee(kcall.Common()) != san {
 		r.Bad(rule, k.Name+":bound", site, "length of the returned slice is not the result of sanitizeK")
 		return
